@@ -30,3 +30,26 @@ Theorem C10_conv1d_every_column_written : forall Nf N1 x, 1 <= Nf < N1 -> 0 <= x
   let c := Z.quot Nf 2 in
   (c <= x < N1 - c) \/ (exists x_, 0 <= x_ < 2 * c /\ x = (if x_ <? c then x_ else (N1 - 1) - (x_ - c))).
 Proof. exact conv1d_columns_covered. Qed.
+
+(* cwatershed: every flat neighbour index the flood dereferences WITHOUT a bounds check (flat delta + stored margin lower
+   bound) lies inside the image *)
+Require Import MV.Model.Watershed MV.Proof.WatershedProof.
+Theorem C10_watershed_unchecked_neighbours_in_bounds : forall sh pos m n, pos_shape sh -> 0 <= pos < size sh ->
+  m <= truem sh pos -> nb_ok sh n ->
+  match fst (resolve_margin sh pos m n) with Some (np, _) => 0 <= np < size sh | None => True end.
+Proof.
+  intros sh pos m n Ps Hp Hm Hn.
+  pose proof (resolve_sound sh pos m 0 n Ps Hp Hm Hn) as H. cbv zeta in H. destruct H as (_ & _ & _ & H).
+  destruct (fst (resolve_margin sh pos m n)) as [[np nm]|]; [|exact I].
+  destruct (fst (resolve_checked sh pos 0 n)) as [[np' nm']|]; [|contradiction]. tauto.
+Qed.
+
+(* at_flat on a non-contiguous array: the addressed element is at an in-range position on every axis *)
+Require Import MV.Model.ArrayHpp MV.Proof.ArrayProof.
+Theorem C10_at_flat_position_in_range : forall sh strides p, length strides = length sh -> Forall (fun d => 0 < d) sh ->
+  0 <= p < fold_right Z.mul 1 sh ->
+  exists pos_rev, Forall2 (fun q d => 0 <= q < d) pos_rev (rev sh) /\ at_flat p sh strides = dot pos_rev (rev strides).
+Proof.
+  intros sh strides p L Hd Hp. destruct (at_flat_addresses_logical_element sh strides p L Hd Hp) as (pos & F & A & _).
+  exists pos. split; assumption.
+Qed.
